@@ -199,6 +199,42 @@ class Str:
         return "Str(%r)" % self.s
 
 
+class It:
+    """abstract iterator: kind 'exact' (the remaining items, in order) or
+    'rep' (zero or more repetitions of the item group)"""
+    __slots__ = ("kind", "items")
+
+    def __init__(self, kind, items):
+        self.kind = kind
+        self.items = tuple(items)
+
+    def __eq__(self, o):
+        return isinstance(o, It) and o.kind == self.kind and o.items == self.items
+
+    def __hash__(self):
+        return hash(("It", self.kind, self.items))
+
+    def __repr__(self):
+        return "It(%s,%r)" % (self.kind, self.items)
+
+
+class BoxV:
+    """an owning pointer (Box/Rc) to an abstract heap cell"""
+    __slots__ = ("ref",)
+
+    def __init__(self, ref):
+        self.ref = ref
+
+    def __eq__(self, o):
+        return isinstance(o, BoxV) and o.ref == self.ref
+
+    def __hash__(self):
+        return hash(("BoxV", self.ref))
+
+    def __repr__(self):
+        return "Box(%r)" % (self.ref,)
+
+
 class Opaque:
     __slots__ = ("tag",)
 
@@ -389,6 +425,12 @@ def join(a, b):
         return ArrS(join(a.elem, b.elem), join(a.n, b.n))
     if ta is Ref:
         return TOP
+    if ta is It:
+        items = a.items + b.items
+        e = BOT
+        for x in items:
+            e = join(e, x)
+        return It("rep", (e,)) if items else It("exact", ())
     return TOP
 
 
